@@ -87,15 +87,131 @@ proof fn lemma_rank_monotone(p: int, q: int, n: int)
 }
 
 // ---- the result cache keyed by the tip hash (fee_percentiles.rs:49-87) --------------------------------------------------
-// fee rates of the most recent up to n non-coinbase transactions of the served chain, most recent first: uninterpreted
-uninterp spec fn fees_per_byte_spec(chain: Seq<CachedBlock>, ub: &UnstableBlocks, n: u32) -> Seq<u64>;
-uninterp spec fn percentiles_spec(values: Seq<u64>) -> Seq<u64>;
-// [trusted:assumed-contract] get_fees_per_byte (fee_percentiles.rs:94: Cow / filter_map fallback pipeline) and percentiles
-// (sort_unstable + closure map/collect; its rank arithmetic is verified as slices above): functions of their arguments
+// fee rates of the most recent up to n non-coinbase transactions of the served chain, most recent block first:
+// written from the statement of C15
+// the rates one block contributes: the insertion-time cache if present, otherwise recomputed from its transactions
+uninterp spec fn recomputed_rates_spec(b: CachedBlock, ub: &UnstableBlocks) -> Seq<u64>;
+spec fn rates_of(b: CachedBlock, ub: &UnstableBlocks) -> Seq<u64> {
+    match b.fee_rates { Some(v) => v@, None => recomputed_rates_spec(b, ub) }
+}
+// all rates of the blocks chain[k..], the most recent block first
+spec fn recent_rates(chain: Seq<CachedBlock>, ub: &UnstableBlocks, k: int) -> Seq<u64>
+    decreases chain.len() - k
+{
+    if k >= chain.len() || k < 0 { Seq::empty() } else { recent_rates(chain, ub, k + 1) + rates_of(chain[k], ub) }
+}
+spec fn take_rates(s: Seq<u64>, n: int) -> Seq<u64> { if n >= s.len() { s } else { s.subrange(0, n) } }
+spec fn fees_per_byte_spec(chain: Seq<CachedBlock>, ub: &UnstableBlocks, n: u32) -> Seq<u64> {
+    take_rates(recent_rates(chain, ub, 0), n as int)
+}
+proof fn lemma_take_prefix(p: Seq<u64>, s: Seq<u64>, n: int)
+    requires 0 <= n <= p.len() <= s.len(), s.subrange(0, p.len() as int) == p,
+    ensures take_rates(p, n) == take_rates(s, n),
+{
+    assert(take_rates(p, n) =~= take_rates(s, n));
+}
+proof fn lemma_recent_prefix(chain: Seq<CachedBlock>, ub: &UnstableBlocks, i: int, j: int)
+    requires 0 <= j <= i <= chain.len(),
+    ensures
+        recent_rates(chain, ub, i).len() <= recent_rates(chain, ub, j).len(),
+        recent_rates(chain, ub, j).subrange(0, recent_rates(chain, ub, i).len() as int) == recent_rates(chain, ub, i),
+    decreases i - j
+{
+    if j < i {
+        lemma_recent_prefix(chain, ub, i, j + 1);
+        assert(recent_rates(chain, ub, j) == recent_rates(chain, ub, j + 1) + rates_of(chain[j], ub));
+        assert(recent_rates(chain, ub, j).subrange(0, recent_rates(chain, ub, i).len() as int)
+            =~= recent_rates(chain, ub, j + 1).subrange(0, recent_rates(chain, ub, i).len() as int));
+    } else {
+        assert(recent_rates(chain, ub, j).subrange(0, recent_rates(chain, ub, i).len() as int) =~= recent_rates(chain, ub, i));
+    }
+}
+impl CachedBlock {
+    // [trusted:assumed-contract] CachedBlock::fee_rates (blocktree.rs:61, `self.fee_rates.as_deref()`; Option::as_deref has no vstd spec)
+    #[verifier::external_body]
+    fn fee_rates(&self) -> (r: Option<&[MillisatoshiPerByte]>)
+        ensures r.is_some() == self.fee_rates.is_some(), r matches Some(s) ==> s@ == self.fee_rates.unwrap()@,
+    { unimplemented!() }
+}
+// [trusted:assumed-contract] the post-upgrade fallback `block.block().txdata().iter().filter_map(|tx| get_tx_fee_per_byte(tx, ..)).collect()`
+// (fee_percentiles.rs:110-116, closure pipeline over the dependency's Transaction type): a function of the block and the tree
 #[verifier::external_body]
-fn get_fees_per_byte(main_chain: Vec<&CachedBlock>, unstable_blocks: &UnstableBlocks, number_of_transactions: u32) -> (r: Vec<MillisatoshiPerByte>)
-    ensures r@ == fees_per_byte_spec(deref_seq(main_chain@), unstable_blocks, number_of_transactions),
+fn vp_recompute_fee_rates(block: &CachedBlock, unstable_blocks: &UnstableBlocks) -> (r: Vec<MillisatoshiPerByte>)
+    ensures r@ == recomputed_rates_spec(*block, unstable_blocks),
 { unimplemented!() }
+
+// get_fees_per_byte (fee_percentiles.rs:94) on its real loops. R12 (Cow elimination): `Cow<'_, [T]>` => `&[T]`, `Cow::Borrowed(x)` => `x`,
+// `Cow::Owned(e)` => `{ vp_owned = e; vp_owned.as_slice() }` (both arms deref to the same slice); `for &fee in` => `for vp_fee in` + `let fee = *vp_fee;`
+//@extract file=canister/src/api/fee_percentiles.rs item="fn get_fees_per_byte" props=C15
+//@ ret r
+//@ rewrite R12 "let block_fee_rates: Cow<'_, \[MillisatoshiPerByte\]> = match" => "let vp_owned: Vec<MillisatoshiPerByte>;\n        let block_fee_rates: &[MillisatoshiPerByte] = match"
+//@ rewrite R12 "Some\(cached\) => Cow::Borrowed\(cached\)," => "Some(cached) => cached,"
+//@ rewrite R12 "None => Cow::Owned\(\s*block\s*\.block\(\)\s*\.txdata\(\)\s*\.iter\(\)\s*\.filter_map\(\|tx\| get_tx_fee_per_byte\(tx, unstable_blocks\)\)\s*\.collect\(\),\s*\)," => "None => { vp_owned = vp_recompute_fee_rates(block, unstable_blocks); vp_owned.as_slice() }"
+//@ rewrite R12 "for &fee in block_fee_rates\.iter\(\) \{" => "for vp_fee in block_fee_rates.iter() {\n            let fee = *vp_fee;"
+//@ spec
+//@| ensures r@ == fees_per_byte_spec(deref_seq(main_chain@), unstable_blocks, number_of_transactions),
+//@ start
+//@| let ghost chain = deref_seq(main_chain@);
+//@| let ghost mut started: int = 0;   // blocks whose rates have been taken (completely, or up to the cut)
+//@| let ghost mut bi: int = 0;
+//@| let ghost mut base: Seq<u64> = Seq::empty();
+//@| let ghost mut taken: int = 0;
+//@ before "break;" nth=1
+//@| proof { lemma_recent_prefix(chain, unstable_blocks, chain.len() - started, 0); }
+//@ before "let vp_owned"
+//@| proof {
+//@|     started = started + 1;
+//@|     bi = chain.len() - started;
+//@|     base = recent_rates(chain, unstable_blocks, bi + 1);
+//@|     taken = 0;
+//@| }
+//@ before "for vp_fee in"
+//@| proof {
+//@|     assert(**block == chain[bi]);
+//@|     assert(block_fee_rates@ == rates_of(chain[bi], unstable_blocks));
+//@|     assert(recent_rates(chain, unstable_blocks, bi) == base + block_fee_rates@);
+//@|     assert(block_fee_rates@.subrange(0, 0) =~= Seq::<u64>::empty());
+//@|     assert(base + block_fee_rates@.subrange(0, 0) =~= base);
+//@| }
+//@ before "break;" nth=2
+//@| proof {
+//@|     let p = base + block_fee_rates@.subrange(0, taken);
+//@|     let w = base + block_fee_rates@;
+//@|     assert(w.subrange(0, p.len() as int) =~= p);
+//@|     lemma_take_prefix(p, w, number_of_transactions as int);
+//@| }
+//@ after "fees.push(fee);"
+//@| proof {
+//@|     assert(base + block_fee_rates@.subrange(0, taken + 1) =~= (base + block_fee_rates@.subrange(0, taken)).push(fee));
+//@|     taken = taken + 1;
+//@| }
+//@ loop 1 binder=itb
+//@| invariant_except_break
+//@|     started == itb.index@,
+//@| invariant
+//@|     chain == deref_seq(main_chain@),
+//@|     0 <= started <= chain.len(),
+//@|     tx_count == fees@.len(), tx_count <= number_of_transactions,
+//@|     fees@ == take_rates(recent_rates(chain, unstable_blocks, chain.len() - started), number_of_transactions as int),
+//@| ensures
+//@|     fees@ == take_rates(recent_rates(chain, unstable_blocks, 0), number_of_transactions as int),
+//@ loop 2 binder=itf
+//@| invariant_except_break
+//@|     taken == itf.index@,
+//@| invariant
+//@|     0 <= taken <= block_fee_rates@.len(),
+//@|     tx_count == fees@.len(), tx_count <= number_of_transactions,
+//@|     recent_rates(chain, unstable_blocks, bi) == base + block_fee_rates@,
+//@|     block_fee_rates@.subrange(0, block_fee_rates@.len() as int) =~= block_fee_rates@,
+//@|     fees@ == take_rates(base + block_fee_rates@.subrange(0, taken), number_of_transactions as int),
+//@| ensures
+//@|     tx_count == fees@.len(), tx_count <= number_of_transactions,
+//@|     fees@ == take_rates(recent_rates(chain, unstable_blocks, bi), number_of_transactions as int),
+//@end
+
+uninterp spec fn percentiles_spec(values: Seq<u64>) -> Seq<u64>;
+// [trusted:assumed-contract] percentiles (sort_unstable + closure map/collect; its rank arithmetic is verified as slices above):
+// a function of its argument
 #[verifier::external_body]
 fn percentiles(values: Vec<u64>) -> (r: Vec<u64>)
     ensures r@ == percentiles_spec(values@), values@.len() == 0 ==> r@.len() == 0,
